@@ -290,6 +290,63 @@ class CachedEvaluationMapper(CachedMapper, EvaluationMapper):
 
             self.cse_name_list.append((cse_name, str_child))""",
      "generic CSE-splitting mix-in reuses CSE<n> names for unprefixed wrappers"),
+    # ---------------- C12
+    ("c12-multiset-to-set", "C12", CSE,
+     "            return type(expr), frozenset(kid_count.items())",
+     "            return type(expr), frozenset(kid_count)",
+     "NormalizedKeyGetter forgets multiplicities: a+a+b merged with a+b+b"),
+    ("c12-key-without-type", "C12", CSE,
+     "            return type(expr), frozenset(kid_count.items())",
+     "            return frozenset(kid_count.items())",
+     "normalised key has no node type: a sum is merged with a product of the same operands"),
+    ("c12-wraps-wrapper-again", "C12", CSE,
+     """            new_expr = prim.wrap_in_cse(
+                    getattr(IdentityMapper, expr.mapper_method)(self, expr))""",
+     """            new_expr = prim.CommonSubexpression(prim.wrap_in_cse(
+                    getattr(IdentityMapper, expr.mapper_method)(self, expr)))""",
+     "canonical wrapper is wrapped once more (wrapper directly around wrapper)"),
+    ("c12-no-canonical-table", "C12", CSE,
+     """        try:
+            return self.canonical_subexprs[key]
+        except KeyError:""",
+     """        try:
+            raise KeyError
+        except KeyError:""",
+     "get_cse stops consulting the canonical table: every occurrence gets its own wrapper object "
+     "(equal wrappers, still shared by the evaluator) -- see catalogue note"),
+    ("c12-evaluator-bypasses-cse-cache", "C12", EV,
+     """    def map_common_subexpression_uncached(self, expr):
+        return self.rec(expr.child)""",
+     """    def map_common_subexpression_uncached(self, expr):
+        return self.rec(expr.child)
+
+    def map_common_subexpression(self, expr, *args):
+        return self.map_common_subexpression_uncached(expr, *args)""",
+     "evaluator's map_common_subexpression bypasses the cache"),
+    ("c12-cse-cache-keyed-on-id", "C12", MAP,
+     "        key = (expr, *args)\n",
+     "        key = (id(expr), *args)\n",
+     "CSE cache keyed on id(expr): equal wrappers are computed once each"),
+    ("c12-use-count-threshold", "C12", CSE,
+     "        if count > 1}",
+     "        if count > 2}",
+     "use-count threshold > 2: operations repeated exactly twice are not shared"),
+    ("c12-commuted-not-merged", "C12", CSE,
+     "        if isinstance(expr, COMMUTATIVE_CLASSES):",
+     "        if isinstance(expr, prim.Sum):",
+     "products with the same operands in another order are no longer the same operation"),
+    ("c12-cache-poisoned-by-exception", "C12", MAP,
+     """        except KeyError:
+            result = self.map_common_subexpression_uncached(expr, *args)
+            ccd[key] = result
+            return result""",
+     """        except KeyError:
+            ccd[key] = None
+            result = self.map_common_subexpression_uncached(expr, *args)
+            ccd[key] = result
+            return result""",
+     "CSE cache slot is reserved before the child is computed: a raise in the environment "
+     "leaves None cached for the wrapper"),
 ]
 
 
